@@ -275,6 +275,39 @@ def expected_lines(old, data):
     return new
 
 
+def expected_lines_ci(old, data):
+    """the same merge law with keywords compared case-insensitively (CP2K's own reading; the repaired variant of the open
+    finding C19:cp2k:wfrvel:keyword-case, Lean `mergeDataR`): the line is rewritten with the requested spelling; of
+    requested keys that are equal up to case the first one names the entry"""
+    def fmt(k, v):
+        return str(k) if v is None else f"{k} {v}"
+    wanted = {}
+    for k in data:
+        wanted.setdefault(str(k).upper(), k)
+    done, new = set(), []
+    for line in old:
+        k = wanted.get(line.split()[0].upper())
+        if k is not None:
+            new.append(fmt(k, data[k]))
+            done.add(k)
+        else:
+            new.append(line)
+    for k, v in data.items():
+        if k not in done:
+            new.append(fmt(k, v))
+    return new
+
+
+def keys_collide_up_to_case(update):
+    """a request that names the same CP2K keyword twice (`STEPS` and `steps` in one data dict): what it asks for depends
+    on whether keywords are compared literally or as CP2K reads them — the point of the open finding"""
+    for v in (update or {}).values():
+        d = v.get("data", {})
+        if isinstance(d, dict) and len({str(k).upper() for k in d}) < len(d):
+            return True
+    return False
+
+
 def check_case(C, tmp, text, update, remove):
     """returns (Real, fails[list of (signature, what)], tags) — everything on the real code"""
     fails = []
@@ -439,7 +472,8 @@ def check_case(C, tmp, text, update, remove):
                 if any(not line.split() for line in d):
                     continue
                 want_d = expected_lines(d, data)
-            if list(n.data) != want_d:
+            if list(n.data) != want_d and not (not rep and isinstance(data, dict) and not isinstance(data, list)
+                                               and list(n.data) == expected_lines_ci(d, data)):
                 if id(n) in big_ids and list(n.data) == d:
                     sig = "C19:cp2k:third-duplicate-bare-key"
                 elif rep:
@@ -864,13 +898,20 @@ FIXED = [
 ]
 
 
+DEFERRED: list = []
+
+
 # --------------------------------------------------------------------------- run / replay
 def _one(C, tmp, ctx, text, update, remove, lines, pending, origin):
     r, fails, tags = check_case(C, tmp, text, update, remove)
     r2, fails_b = check_idempotent(C, tmp, r, update, remove, tags)
     rep = {"part": PART, "template": text, "update": enc_update(update), "remove": remove}
-    for sig, what in fails + fails_b:
-        ctx.fail(sig, what, rep)
+    if keys_collide_up_to_case(update) and (fails or fails_b):
+        # judged after the model comparison: dropped iff the code is the repaired variant on this very input
+        DEFERRED.append((len(pending) if "text" in r.rec else None, fails + fails_b, rep, 3))
+    else:
+        for sig, what in fails + fails_b:
+            ctx.fail(sig, what, rep)
     branch = "error" if r.err else ("ambiguous" if "ambiguous-address" in tags else
                                     "partial-triple" if "partial-triple" in tags else "edited")
     ctx.count(1, branch=f"cp2k-{origin}-{branch}")
@@ -978,11 +1019,29 @@ def run_part(ctx):
                 ctx.sample({"part": PART, "template": text, "update": upd, "remove": rem, "code": r.answer()})
         if ctx._driver_ok:
             out = ctx.driver(lines)
-            for (case, code), model in zip(pending, out):
-                # which error a re-read of a malformed OUTPUT hits first depends on the printed sibling
-                # order (Python set order in the code, insertion order in the model): compare the fact only
-                if code != model and not (str(code).startswith("reread-err:") and str(model).startswith("reread-err:")):
-                    ctx.disagree({"part": PART, **case}, code, model)
+            from props import c19_variant as V
+            # which error a re-read of a malformed OUTPUT hits first depends on the printed sibling
+            # order (Python set order in the code, insertion order in the model): compare the fact only.
+            # ops that run the editor are compared with the asIs AND the repaired variant (open finding keyword-case)
+            status = V.settle(ctx, PART, [(case, code, line, model) for (case, code), line, model in zip(pending, lines, out)],
+                              same=lambda c, m: c == m or (str(c).startswith("reread-err:") and str(m).startswith("reread-err:")))
+        else:
+            status = {}
+        for idx, fl, rep, _ in DEFERRED:
+            # position of this case's `cp2kupdate` line among the requests: after cp2kread (+ up to two cp2kspec)
+            sts = []
+            for j in range(idx, min(idx + 5, len(lines))) if idx is not None else ():
+                if j > idx and lines[j].startswith(("cp2kread ", "cp2krefkeys ")):
+                    break                                  # the next case
+                if lines[j].startswith("cp2kupdate "):   # first and second application of this case
+                    sts.append(status.get(j))
+            if "repaired" in sts and all(x in ("repaired", "same") for x in sts):
+                ctx.hit("cp2k:ambiguous-request(keys equal up to case):repaired-variant")
+                continue
+            for sig, what in fl:
+                ctx.fail(sig, what, rep)
+        DEFERRED.clear()
+        if ctx._driver_ok:
             ctx.hit("cp2k-model-comparisons", len(lines))
     finally:
         shutil.rmtree(tmp, ignore_errors=True)
